@@ -309,8 +309,13 @@ def rich_body(g, rng, depth):
                 body[-1] = Item(kind="raw", text="sob r%d, . - %o" % (rng.randrange(6), rng.choice([0, 2, 4])))
         elif k < 0.84:
             body.append(Item(kind="dir", name=".byte", args=[("lit", rng.randrange(0, 256)), ("lit", rng.randrange(0, 256))]))
-        elif k < 0.9:
+        elif k < 0.87:
             body.append(Item(kind="insn", mn=rng.choice(["nop", "halt", "ret"]), ops=[]))
+        elif k < 0.92:
+            # data directives with little or nothing behind them, multi-chunk strings (kept even-sized)
+            body.append(Item(kind="raw", text=rng.choice([
+                ".word", ".dword", ".byte\n    .even", ".word\n    .byte 1, 2", ".rad50 /AB/<1>", ".rad50 /EMPTY/<0>/X/",
+                ".asciz \"ab\"<15>\n    .even", ".ascii /x/<12><15>/yz/\n    .even", ".blkb 3\n    .even", ".odd\n    .even", ".word 'a, \"bc"])))
         elif depth > 0:
             body.append(Item(kind="repeat", count=("lit", rng.choice([0, 1, 2, 3])), body=rich_body(g, rng, depth - 1)))
         else:
